@@ -86,6 +86,23 @@ CLAIMED = {
             "with frequent insertions (B with deleted nodes, multi-links, order links) are validated by Trace_HugrStore.",
             "insert_nested/insert_cfg/insert_conditional/insert_tail_loop are covered by the builder checks (C01/C16) when present.",
             "DESIGN.md §5 C08"),
+    "C02": ("TLA+ spec HugrSerial.tla (Serialize / Load over HugrStore states) with RoundTripLaws: TLC over all store states + "
+            "to_json/load_json on replayed real stores (S->C) + random mutation histories and catalogue HUGRs",
+            "TLC checks losslessness (SameUpToRenumbering), the fixed point and the foreign-offset law on every reachable store state "
+            "within the bounds; for a sample of the states the history is replayed on a real Hugr and to_json compared with "
+            "HugrSerial!Serialize (up to canonical relabelling; exactly when no node was deleted), load_json(to_json) compared as JSON "
+            "value and by observable structure (ops, ordered hierarchy, metadata, bag of links per port incl. order links); the same "
+            "for random histories with deletion / index reuse / insertion and the builder catalogue.",
+            "Links attach only to ports the operations have; per-operation attributes are covered by C05's document-level leg.",
+            "DESIGN.md §5 C02"),
+    "C03": ("TLA+ HugrSerial!IndexSane / PortAddressing over Serialize of all store states + published strict schema as oracle "
+            "on every document obtained from the implementation",
+            "TLC checks IndexSane and PortAddressing on Serialize(s) for every reachable store state; documents of replayed states, "
+            "random mutation histories (deletion, index reuse), catalogue HUGRs, packages, catalogue and std extensions are validated "
+            "against the published strict schema ($ref into $defs) and for index sanity, and compared with HugrSerial!Serialize "
+            "(order edges at OrderOffset independent of connected ports, static port after the value inputs).",
+            "JSON-Schema semantics are taken from the jsonschema library (the schema is an oracle file, not re-modelled).",
+            "DESIGN.md §5 C03"),
 }
 
 NOT_YET = "check not built yet in this round (planned: see DESIGN.md §5); nothing is claimed for it until its TLA+ spec and conformance legs exist"
